@@ -151,7 +151,7 @@ func modeStr(m *sched.Mode) string {
 			b.WriteByte('P')
 		}
 	}
-	return fmt.Sprintf("schedule: vector=%s default-lexer-first=%v late-return=%v", b.String(), m.Default, m.LateReturn)
+	return fmt.Sprintf("schedule: vector=%s default-lexer-first=%v late-return=%v hold-heredoc-wait=%v", b.String(), m.Default, m.LateReturn, m.HoldPopWait)
 }
 
 func c06RunArith(c *core.Ctx, cs c06Case, mode *sched.Mode, stress func()) c06Outcome {
@@ -204,6 +204,9 @@ func c06Modes(h int, seed uint64, exhaustiveUpTo int) []sched.Mode {
 	add := func(v []bool, def bool) {
 		for _, late := range []bool{false, true} {
 			out = append(out, sched.Mode{Vector: v, Default: def, LateReturn: late})
+		}
+		if len(v) == 0 || len(out)%16 == 2 {
+			out = append(out, sched.Mode{Vector: v, Default: def, HoldPopWait: true})
 		}
 	}
 	if h <= exhaustiveUpTo {
@@ -415,13 +418,23 @@ func c06Gen(c *core.Ctx) {
 			emit(rd.Text[:toks[i].Off]+lx+" "+rd.Text[toks[i].Off:toks[j].Off]+bad+" "+rd.Text[toks[j].Off:], "lexer-error-then-parser-error")
 			emit(pre+bad+" "+bad+" "+lx, "two-errors-at-end")
 		}
+		// a syntax error with the reader failing in one of the next tokens
+		for k := 0; k < 3; k++ {
+			i := r.IntN(len(toks))
+			bad := pick(r, c06BadToks)
+			src := rd.Text[:toks[i].Off] + bad + " " + rd.Text[toks[i].Off:]
+			at := len([]rune(rd.Text[:toks[i].Off]+bad)) + 1 + r.IntN(8)
+			if at < len([]rune(src)) {
+				core.Do(c, c06Case{Src: src, Fault: at, Kind: "parser-error+read-fault"}, c06Exec)
+			}
+		}
 		// reader faults
 		rs := []rune(rd.Text)
 		for k := 0; k < 2 && len(rs) > 1; k++ {
 			core.Do(c, c06Case{Src: rd.Text, Fault: 1 + r.IntN(len(rs)-1), Kind: "read-fault"}, c06Exec)
 		}
 	}
-	for _, s := range []string{"a | | $(", "a ) 'x", "a ;; \"${", "fi ${x", "a | | b c d e", "cat <<E <<F\nx\nE\ny\nF\n", "cat <<E\nx\n", "echo $(a $(b) `c`) $((1+2))", "echo $(a | | b) 'x", "echo `a ) b` \"", "if a; then b; fi; )", "a <<E; b ) c\nx\nE\n", "$(( 1 ", "${x:-$(a | )}", "a\nb\n", "(a; b) | c & d", "{ a; } }", "for x in a b; do c; done done"} {
+	for _, s := range []string{"a | | $(", "a ) 'x", "a ;; \"${", "fi ${x", "a | | b c d e", "cat <<E <<F\nx\nE\ny\nF\n", "echo $(cat <<E\nx\nE\n) $(cat <<F\ny\nF\n)\n", "a `cat <<E\nx\nE\n` b\n", "{ cat <<E\nx\nE\n}\n", "cat <<E\nx\n", "echo $(a $(b) `c`) $((1+2))", "echo $(a | | b) 'x", "echo `a ) b` \"", "if a; then b; fi; )", "a <<E; b ) c\nx\nE\n", "$(( 1 ", "${x:-$(a | )}", "a\nb\n", "(a; b) | c & d", "{ a; } }", "for x in a b; do c; done done"} {
 		emit(s, "dedicated")
 	}
 	// arithmetic: expressions with 0, 1 and >=2 faults, through Eval and Expand
@@ -466,7 +479,7 @@ func init() {
 			if m.Counters["forced-releases"]*20 > m.Counters["schedule-runs"] {
 				return fmt.Sprintf("%d forced releases in %d runs: the requested schedules were often not honoured", m.Counters["forced-releases"], m.Counters["schedule-runs"])
 			}
-			for _, k := range []string{"valid", "parser-error", "parser-error-then-lexer-error", "lexer-error-then-parser-error", "read-fault", "arith", "arith-random"} {
+			for _, k := range []string{"valid", "parser-error", "parser-error-then-lexer-error", "lexer-error-then-parser-error", "read-fault", "parser-error+read-fault", "arith", "arith-random"} {
 				if m.Counters["inputs/"+k] < 10 {
 					return "too few inputs of kind " + k
 				}
